@@ -186,7 +186,6 @@ def alarm_setattr(src):
 
 
 def alarm_setattr_computed_roundtrip(src):
-    class_ = object
     ns = _NS()
     for k in ("a", "b"):
         setattr(ns, k, src)
@@ -338,3 +337,132 @@ def alarm_match(src):
             src.width = 1
         case _:
             pass
+
+
+def alarm_shallow_copy_module(src):
+    c = copy.copy(src.info)
+    c.records.append(1)
+
+
+def ok_shallow_copy_own_attr(src):
+    c = copy.copy(src.info)
+    c.name = "x"
+    setattr(c, "other", 1)
+
+
+def alarm_shallow_copy_method(src):
+    lib = src.lib.copy()
+    lib["a"]["b"] = 1
+
+
+def ok_shallow_copy_method_top(src):
+    lib = src.lib.copy()
+    lib["a"] = 1
+
+
+def alarm_defaultdict_factory(src):
+    from collections import defaultdict
+
+    dd = defaultdict(list)
+    dd["a"].append(src)
+    for g in dd["a"]:
+        g.width = 1
+
+
+def alarm_ordered_dict_pairs(src):
+    from collections import OrderedDict
+
+    d = OrderedDict((g.name, g) for g in src)
+    d["a"].width = 1
+
+
+def alarm_dict_update_pairs(src):
+    d = {}
+    d.update((g.name, g) for g in src)
+    d["a"].width = 1
+
+
+def alarm_dict_update_kw(src):
+    d = {}
+    d.update(a=src)
+    d["a"].width = 1
+
+
+def alarm_unknown_lib_method_result(src):
+    import os
+
+    r = os.path.commonprefix(src)
+    r.things().append(1)
+
+
+def alarm_max_returns_element(src):
+    g = max(src.glyphs, key=lambda g: g.width)
+    g.width = 1
+
+
+def alarm_min_two_args(src):
+    c = deepcopy(src)
+    m = min(c, src)
+    m.width = 1
+
+
+def alarm_sum_concat(src):
+    xs = sum([[src], [deepcopy(src)]], [])
+    xs[0].width = 1
+
+
+def alarm_typing_cast(src):
+    from typing import cast
+
+    cast(object, src).width = 1
+
+
+def alarm_reversed(src):
+    for g in reversed([src]):
+        g.width = 1
+
+
+def alarm_filter_builtin(src):
+    g = next(filter(None, [None, src]))
+    g.width = 1
+
+
+def alarm_itertools_chain(src):
+    import itertools
+
+    for g in itertools.chain([deepcopy(src)], [src]):
+        g.width = 1
+
+
+def alarm_zip_longest_fill(src):
+    import itertools
+
+    for a, b in itertools.zip_longest([src, src], [deepcopy(src)]):
+        if b is None:
+            a.width = 1
+
+
+def alarm_list_mul(src):
+    xs = [src] * 3
+    xs[1].width = 1
+
+
+def alarm_list_add(src):
+    xs = [deepcopy(src)] + [src]
+    xs[1].width = 1
+
+
+def alarm_dict_merge(src):
+    d = {**{"a": src}}
+    d["a"].width = 1
+
+
+def alarm_list_star(src):
+    xs = [*[src]]
+    xs[0].width = 1
+
+
+def alarm_set_union_op(src):
+    s = {1} | {src}
+    for x in s:
+        x.width = 1
